@@ -10,7 +10,7 @@
    Section-style arguments [json_enc], [nc_print] with the reader-side parser [nc_parse];
    the hypotheses say what is assumed of them. *)
 From RP Require Import Lib.Base Lib.Strings Model.Gfx Model.MsgIn Model.EncIn Model.DecIn Spec.DenoteIn Spec.GrammarIn
-  Proofs.InBits Proofs.InEncLines Proofs.InEncText Proofs.InEncGfx Proofs.InEnc Proofs.InRound Proofs.InTotal Proofs.StringsProofs.
+  Proofs.InBits Proofs.InEncLines Proofs.InEncText Proofs.InEncGfx Proofs.InEnc Proofs.InRound Proofs.InTotal Proofs.StringsProofs Proofs.InOrder.
 
 (* MAIN THEOREM.  For every list of ASCII-representable messages ([rep_msg]: flow words, all 29
    command fields, mode / colour (index and RGB, quantised) / extended value / the 21 text
@@ -89,6 +89,20 @@ Theorem c01_dec_enc_partial :
                      run_msgs p ms' = run_msgs p ms.
 Proof. exact dec_enc_in. Qed.
 Print Assumptions c01_dec_enc_partial.
+
+(* "effects of successive messages appear in submission order": the main theorem is an equality of
+   final PANELS, and the panel observes order - the clearing commands act on what the components
+   show when they arrive, so a write before a Clear is gone and a write after it stays; an encoder
+   that moved or coalesced the lines of one target across a Clear would reach a different panel. *)
+Theorem c01_order_is_observable : forall id st p,
+  apply_effs p [w_mode id st; e_clear] <> apply_effs p [e_clear; w_mode id st].
+Proof. exact order_observable. Qed.
+Print Assumptions c01_order_is_observable.
+
+Theorem c01_coalescing_across_clear_is_unsound : forall id a b p,
+  apply_effs p [w_mode id a; e_clear; w_mode id b] <> apply_effs p [w_mode id b; e_clear].
+Proof. exact coalescing_is_unsound. Qed.
+Print Assumptions c01_coalescing_across_clear_is_unsound.
 
 From Coq Require Import String.
 Open Scope string_scope.
